@@ -6,8 +6,8 @@ CONSTANTS NAcc = 1
           HistLimits = {0, 2, 3}
           Policies = {"always", "never"}
           Asyncs = {FALSE, TRUE}
-          MaxId = 7
-          Depth = 14
+          MaxId = 9
+          Depth = 18
 INVARIANTS TypeOK ViewIsRoot Aligned HistChain PersistedIsCanon RecoverableSound
 CONSTRAINT Bounded
 CONSTRAINT Emit
